@@ -45,7 +45,8 @@ pub fn spec_for(id: &str) -> Option<CheckSpec> {
     "C03" => spec("C03", vec![Box::new(k("C03", Source::Dist, Q, T).absorbing(Some(false)).resets()), Box::new(k("C03", Source::Random, Q / 2, T / 2).absorbing(Some(false)).resets()), Box::new(k("C03", Source::Shipped, QS, TS).absorbing(Some(false)).resets())], true),
     "C04" => spec("C04", vec![Box::new(k("C04", Source::Dist, Q, T).absorbing(Some(false)).resets()), Box::new(k("C04", Source::Random, Q / 2, T / 2).absorbing(Some(false)).resets()), Box::new(k("C04", Source::Shipped, QS, TS).absorbing(Some(false)).resets())], true),
     "C05" => spec("C05", vec![Box::new(k("C05", Source::Random, Q, T)), Box::new(k("C05", Source::Shipped, QS, TS)), Box::new(k("C05", Source::Empty, 50_000, 2_000_000))], true),
-    "C06" => spec("C06", vec![Box::new(k("C06", Source::Random, Q, T).resets()), Box::new(k("C06", Source::Shipped, QS, TS).resets())], false),
+    "C06" => { let mut s = spec("C06", vec![Box::new(k("C06", Source::Random, Q, T).resets()), Box::new(k("C06", Source::Shipped, QS, TS).resets()), Box::new(b("C06", SourceB::Random, QB / 2, TB / 4).tablet().special())], false);
+      s.assumptions.push("loop campaign: after every tablet-mode change (the reset the statement names) the real loop is compared with RefLoop continued with a brand-new mapper and no timer; a send a freshly started loop would not make, or a missing/different one, is reported as C06-loop-not-fresh".to_string()); s }
     "C07" => spec("C07", vec![Box::new(k("C07", Source::Random, Q, T).norepeat().special().resets()), Box::new(k("C07", Source::Shipped, QS, TS).resets())], true),
     "C08" => spec("C08", vec![Box::new(k("C08", Source::Dist, Q, T).absorbing(Some(true)))], true),
     "C09" => spec("C09", vec![Box::new(k("C09", Source::Random, Q, T).special().resets()), Box::new(k("C09", Source::Shipped, QS, TS).resets())], true),
